@@ -7,7 +7,7 @@ by z3 for all values at those shapes -> reported as shape-bounded.  Native part:
 game, operation sequences, against the same oracle.
 """
 from pyvc.dsl import contract, lemma, bounded, Int, Real, Bool, Obj, Const, Choice, ListT, TimedListT, DictT
-from pyvc.ghost import eqr, implies, rows, labels, columns, same_multiset, nondecreasing, nonincreasing
+from pyvc.ghost import eqr, implies, rows, labels, columns, same_multiset, nondecreasing, nonincreasing, unchanged
 
 TL = "reamber.base.lists.TimedList:TimedList"
 HL = "reamber.base.lists.notes.HoldList:HoldList"
@@ -67,6 +67,16 @@ def _rand_list(rng, cls_path, n=None, gappy=True):
     return cls(pd.DataFrame(recs, index=idx, columns=list(base.df.columns)))
 
 
+def _receiver_unchanged(self, old):
+    """A query / filter / sort on a plain sequence leaves the sequence as it was: the receiver keeps its rows, row
+    order, fields and labels (so any later operation on it sees the same collection)."""
+    return unchanged(self, old.self)
+
+
+def _both_unchanged(self, val, old):
+    return unchanged(self, old.self) and unchanged(val, old.val)
+
+
 def _all_list_classes():
     import reamber.osu.lists, reamber.quaver.lists, reamber.sm.lists, reamber.bms.lists, reamber.o2jam.lists  # noqa
     import reamber.osu.lists.notes, reamber.quaver.lists.notes, reamber.sm.lists.notes, reamber.bms.lists.notes, reamber.o2jam.lists.notes  # noqa
@@ -101,6 +111,8 @@ class after:
     def ensures_same_class_and_fields(self, offset, include_end, result):
         return type(result) is type(self) and columns(result) == columns(self)
 
+    ensures_receiver_unchanged = _receiver_unchanged
+
     def witnesses(rng):
         for _ in range(150):
             yield dict(self=_rand_list(rng, rng.choice(BASIC)), offset=float(rng.choice([-100, 0, 50, 100, 250.5, 99999])), include_end=rng.random() < 0.5)
@@ -115,6 +127,8 @@ class before:
 
     def ensures_same_class_and_fields(self, offset, include_end, result):
         return type(result) is type(self) and columns(result) == columns(self)
+
+    ensures_receiver_unchanged = _receiver_unchanged
 
     def witnesses(rng):
         for _ in range(150):
@@ -137,6 +151,8 @@ class between:
     def ensures_same_class(self, lower_bound, upper_bound, include_ends, result):
         return type(result) is type(self)
 
+    ensures_receiver_unchanged = _receiver_unchanged
+
     def witnesses(rng):
         for _ in range(150):
             lo = float(rng.choice([-100, 0, 50, 100]))
@@ -158,6 +174,8 @@ class hold_after:
     def ensures_same_class(self, offset, include_end, include_tail, result):
         return type(result) is type(self) and columns(result) == columns(self)
 
+    ensures_receiver_unchanged = _receiver_unchanged
+
     def witnesses(rng):
         for _ in range(150):
             yield dict(self=_rand_list(rng, rng.choice(HOLDS)), offset=float(rng.choice([-100, 0, 50, 100, 150, 600])), include_end=rng.random() < 0.5, include_tail=rng.random() < 0.5)
@@ -172,6 +190,8 @@ class hold_before:
 
     def ensures_same_class(self, offset, include_end, include_head, result):
         return type(result) is type(self) and columns(result) == columns(self)
+
+    ensures_receiver_unchanged = _receiver_unchanged
 
     def witnesses(rng):
         for _ in range(150):
@@ -190,6 +210,8 @@ class hold_between:
             if (_hold_key(r, include_tail) >= lower_bound if include_ends[0] else _hold_key(r, include_tail) > lower_bound)
             and (_hold_key(r, not include_head) <= upper_bound if include_ends[1] else _hold_key(r, not include_head) < upper_bound)
         ]
+
+    ensures_receiver_unchanged = _receiver_unchanged
 
     def witnesses(rng):
         for _ in range(150):
@@ -217,6 +239,8 @@ class getitem_int:
     def ensures_item_class(self, item, result):
         return type(result) is type(self)._item_class()
 
+    ensures_receiver_unchanged = _receiver_unchanged
+
     def witnesses(rng):
         for _ in range(200):
             L = _rand_list(rng, rng.choice(BASIC + HOLDS), n=rng.randrange(1, 5))
@@ -229,6 +253,8 @@ class getitem_slice:
 
     def ensures_is_slice_of_rows(self, item, result):
         return rows(result) == rows(self)[item] and type(result) is type(self)
+
+    ensures_receiver_unchanged = _receiver_unchanged
 
     def witnesses(rng):
         for _ in range(150):
@@ -265,6 +291,8 @@ class first_offset:
     def ensures_is_min(self, result):
         return (result is None and len(rows(self)) == 0) or (len(rows(self)) > 0 and result == min([r["offset"] for r in rows(self)]))
 
+    ensures_receiver_unchanged = _receiver_unchanged
+
     def witnesses(rng):
         for _ in range(100):
             yield dict(self=_rand_list(rng, rng.choice(BASIC)))
@@ -276,6 +304,8 @@ class last_offset:
 
     def ensures_is_max(self, result):
         return (result is None and len(rows(self)) == 0) or (len(rows(self)) > 0 and result == max([r["offset"] for r in rows(self)]))
+
+    ensures_receiver_unchanged = _receiver_unchanged
 
     def witnesses(rng):
         for _ in range(100):
@@ -289,6 +319,8 @@ class first_last_offset:
     def ensures_is_min_max(self, result):
         return (result == (None, None) and len(rows(self)) == 0) or (
             len(rows(self)) > 0 and result[0] == min([r["offset"] for r in rows(self)]) and result[1] == max([r["offset"] for r in rows(self)]))
+
+    ensures_receiver_unchanged = _receiver_unchanged
 
     def witnesses(rng):
         for _ in range(100):
@@ -305,6 +337,8 @@ class hold_last_offset:
     def ensures_is_max_tail(self, result):
         return result == max([r["offset"] + r["length"] for r in rows(self)])
 
+    ensures_receiver_unchanged = _receiver_unchanged
+
     def witnesses(rng):
         for _ in range(100):
             yield dict(self=_rand_list(rng, rng.choice(HOLDS), n=rng.randrange(1, 5)))
@@ -316,6 +350,8 @@ class hold_first_last_offset:
 
     def ensures_is_min_head_max_tail(self, result):
         return result[0] == min([r["offset"] for r in rows(self)]) and result[1] == max([r["offset"] + r["length"] for r in rows(self)])
+
+    ensures_receiver_unchanged = _receiver_unchanged
 
     def witnesses(rng):
         for _ in range(100):
@@ -341,6 +377,8 @@ class sorted_:
     def ensures_same_class(self, reverse, result):
         return type(result) is type(self) and columns(result) == columns(self)
 
+    ensures_receiver_unchanged = _receiver_unchanged
+
     def witnesses(rng):
         for _ in range(150):
             yield dict(self=_rand_list(rng, rng.choice(BASIC + HOLDS)), reverse=rng.random() < 0.5)
@@ -359,6 +397,8 @@ class append_list:
     def ensures_labels_renumbered(self, val, sort, result):
         return labels(result) == list(range(len(rows(self)) + len(rows(val)))) and type(result) is type(self)
 
+    ensures_both_inputs_unchanged = _both_unchanged
+
     def witnesses(rng):
         for _ in range(150):
             c = rng.choice(BASIC + HOLDS)
@@ -376,6 +416,8 @@ class move_start_to:
     def ensures_other_fields_kept(self, to, result):
         return all([{k: v for k, v in a.items() if k != "offset"} == {k: v for k, v in b.items() if k != "offset"} for a, b in zip(rows(result), rows(self))])
 
+    ensures_receiver_unchanged = _receiver_unchanged
+
     def witnesses(rng):
         for _ in range(100):
             yield dict(self=_rand_list(rng, rng.choice(BASIC), n=rng.randrange(1, 5)), to=float(rng.choice([0, -50, 1234.5])))
@@ -388,6 +430,8 @@ class move_end_to:
     def ensures_shifted_copy(self, to, result):
         d = to - max([r["offset"] for r in rows(self)])
         return [r["offset"] for r in rows(result)] == [r["offset"] + d for r in rows(self)] and len(rows(result)) == len(rows(self)) and type(result) is type(self)
+
+    ensures_receiver_unchanged = _receiver_unchanged
 
     def witnesses(rng):
         for _ in range(100):
@@ -440,6 +484,8 @@ class append_sorted:
     def ensures_all_rows_in_time_order(self, val, sort, result):
         offs = [r["offset"] for r in rows(result)]
         return nondecreasing(offs) and same_multiset(rows(result), rows(self) + rows(val)) and type(result) is type(self)
+
+    ensures_both_inputs_unchanged = _both_unchanged
 
     def witnesses(rng):
         for _ in range(100):
